@@ -885,6 +885,31 @@ func (s *sim) checkBuffered(side int) {
 	}
 }
 
+// checkNoStallInvariant: P_C02 at quiescent points — outstanding data always has a retransmission source
+// armed, and queued data is never left waiting with nothing in flight.
+func (s *sim) checkNoStallInvariant() {
+	for side := 0; side < 2; side++ {
+		a := s.assoc[side]
+		if a == nil {
+			continue
+		}
+		a.lock.RLock()
+		st := a.getState()
+		nInfl, nPend := a.inflightQueue.size(), a.pendingQueue.size()
+		userPend := a.pendingQueue.getNumBytes()
+		a.lock.RUnlock()
+		if st != established && st != shutdownPending && st != shutdownReceived {
+			continue
+		}
+		if nInfl > 0 && !a.t3RTX.isRunning() {
+			s.fail("C02", fmt.Sprintf("data in flight but the T3 retransmission timer is not running (t3-not-armed-with-outstanding-data): side=%d inflight=%d", side, nInfl))
+		}
+		if nInfl == 0 && nPend > 0 && userPend > 0 {
+			s.fail("C02", fmt.Sprintf("user data is queued but nothing is in flight at a quiescent point (pending-data-not-sent): side=%d pending=%d bytes=%d rwnd=%d cwnd=%d", side, nPend, userPend, a.RWND(), a.CWND()))
+		}
+	}
+}
+
 // ---------------------------------------------------------------- end-of-run predicates
 
 // checkOrderedPrefix: P_C01 safety — on every ordered stream the read sequence is a prefix of the
@@ -1109,6 +1134,7 @@ func runTransferScenario(t *testing.T, seed int64, nEvents int, st *xferStats) [
 				}
 			}
 			st.events++
+			s.checkNoStallInvariant()
 			if ev%7 == 0 {
 				s.checkBuffered(0)
 				s.checkBuffered(1)
